@@ -13,6 +13,9 @@ pub struct Cfg {
     pub non_ascii: bool,
     pub dead_use: bool,
     pub multiclass_args_hints: bool,
+    /// `def i # "_x"`: the pasted name starts with the loop variable (only for sweeps: what the head denotes -
+    /// the variable or the new def - is not fixed by the statements that need expectations)
+    pub paste_head_var: bool,
     /// restrict to what llvm-tblgen 14 parses and evaluates without error
     pub auditable: bool,
 }
@@ -27,6 +30,7 @@ impl Cfg {
             non_ascii: rng.chance(1, 3),
             dead_use: false,
             multiclass_args_hints: true,
+            paste_head_var: false,
             auditable: true,
         }
     }
